@@ -3,5 +3,5 @@ From Coq Require Import extraction.ExtrOcamlBasic.
 From Verif Require Import Base.Prelude Model.Restrict Model.Iset Model.Count Model.Slice Model.ValueFrom Model.Group.
 Extraction "../ocaml/model_c12.ml"
   mk_ts ts_default ts_restrict ts_get mk_group mk_group_list regroup get_member select_keys select_mask getby_threshold getby_category getby_intervals
-  g_restrict g_get merge_group to_tsd to_tsgroup roundtrip rate
+  g_restrict g_get merge_group merge_group_orig to_tsd to_tsgroup roundtrip rate
   g_count g_count_ep g_trial_count g_value_from step step_total trace union_supports.
